@@ -56,11 +56,40 @@ Print Assumptions C40_tsub_sound.
 (* expression typing: for every table, store and expression whose nodes satisfy the decidable node
    conditions, the reference value (unbounded ints, Python result kinds) is held unchanged by the
    inferred type *)
-Theorem C40_expr_sound : forall T E MO st,
-  (forall x ann cf v w, st x = Some (v, w) -> In w cf -> ty_ok (name_ty (E x) (MO x) ann) v = true) ->
-  forall e v, ev st e v -> expr_ok T E MO e = true -> ty_ok (ety T E MO e) v = true.
+Theorem C40_expr_sound : forall T E MO st e v,
+  ev st e v -> expr_ok T E MO e = true -> names_ok E MO st e -> ty_ok (ety T E MO e) v = true.
 Proof. exact expr_sound. Qed.
 Print Assumptions C40_expr_sound.
+
+(* MAIN, for ALL function summaries s, all tables T and every decision vector D the inferer can stop
+   at (stable): after any sequence of the function's assignments, evaluated with Python semantics in
+   any order, each local holds a value its inferred type represents faithfully.  Side conditions =
+   complement of the finding classes: right-hand sides avoid the bad operator typings (expr_ok),
+   no int / float-object source for a C double local (span_exc), None only into object locals.
+   partial: C-integer-typed arithmetic nodes are excluded by expr_ok; for-range targets are covered
+   at their bound expressions; reads follow cf_state (ev_name). *)
+Theorem C40_infer_sound_partial : forall fx T s D,
+  stable fx T s D MSafe = true ->
+  (forall x d, nth x (s_decl s) None = Some d -> d = TObj) ->
+  (forall a asg, nth_error (s_assigns s) a = Some asg ->
+     expr_ok T (lookup D) (mo_of fx s) (a_rhs asg) = true) ->
+  (forall a asg, nth_error (s_assigns s) a = Some asg ->
+     span_exc (aty fx T s D a) (lookup D (a_lhs asg)) = false) ->
+  (forall a asg, nth_error (s_assigns s) a = Some asg ->
+     is_none_rhs (a_rhs asg) = true -> is_pyobj (lookup D (a_lhs asg)) = true) ->
+  forall st x v w, steps s (fun _ => None) st -> st x = Some (v, w) -> ty_ok (lookup D x) v = true.
+Proof. exact infer_sound_partial. Qed.
+Print Assumptions C40_infer_sound_partial.
+
+(* what ty_ok means for the three C types: no wrap, int stays int, float stays float, bool stays bool *)
+Theorem C40_c_types_faithful : forall v,
+  (ty_ok TCLong v = true -> exists z, v = VInt z /\ - 2 ^ 63 <= z < 2 ^ 63) /\
+  (ty_ok TCDouble v = true -> v = VFloat) /\
+  (ty_ok TCBint v = true -> exists b, v = VBool b).
+Proof.
+  intros v. split; [apply ty_ok_cint_value | split; [apply ty_ok_cdouble_value | apply ty_ok_cbint_value]].
+Qed.
+Print Assumptions C40_c_types_faithful.
 
 (* which operator typings of the running compiler violate the node conditions (finite check) *)
 Theorem C40_bad_typings_bin : subset eq3 bad_bin_kinds known_bad_bin = true.
@@ -87,5 +116,15 @@ Example C40_nonvacuous :
   safe_span fx_none [TCLong; TCLong] false = TCLong /\ safe_span fx_none [TCLong; TCLong] true = TPyInt /\
   safe_span fx_none [TCBint; TCLong] false = TObj /\ safe_span fx_all [TCLong; TCDouble] false = TObj /\
   expr_ok gen_tables (fun _ => TPyInt) (fun _ => true)
-    (EBin Add (EName 0 None [0%nat]) (EInt 1)) = true.
-Proof. vm_compute. auto. Qed.
+    (EBin Add (EName 0 None [0%nat]) (EInt 1)) = true /\
+  (* x = 7; y = x; z = y + 1: stable decisions [long; int object; int object] *)
+  stable fx_none gen_tables
+    {| s_decl := [None; None; None];
+       s_assigns := [ {| a_lhs := 0; a_rhs := EInt 7 |};
+                      {| a_lhs := 1; a_rhs := EName 0 (Some TCLong) [0%nat] |};
+                      {| a_lhs := 2; a_rhs := EBin Add (EName 1 (Some TPyInt) [1%nat]) (EInt 1) |} ];
+       s_body := ESeq (EAsg (Some 0%nat) (EInt 7))
+                  (ESeq (EAsg (Some 1%nat) (EName 0 (Some TCLong) [0%nat]))
+                        (EAsg (Some 2%nat) (EBin Add (EName 1 (Some TPyInt) [1%nat]) (EInt 1)))) |}
+    [TCLong; TPyInt; TPyInt] MSafe = true.
+Proof. vm_compute. repeat split; reflexivity. Qed.
